@@ -26,6 +26,8 @@ CONSTANTS Chunks,      \* chunk ids clients hold a manifest for (stored by this 
           DevFetchOutUnchecked,  \* FETCH with OUT: never looks at the token
           DevFetchLateAuth,      \* FETCH STREAM checks the token only after registering the manifest / looking the chunk up
           DevRateKeyHeader,      \* no token configured: the rate bucket is keyed by the TOKEN header when one is sent
+          DevRefundOnRefusal,    \* a refused STORE gives a slot of the rate budget back -- whether or not it had taken one
+          RateBad,               \* BOOLEAN: the "rate" family also sends STOREs that are refused on their headers (size, TTL) or PoW
           DevRawNewlines         \* send_response writes values verbatim (no escaping of newlines / CR / backslash)
 
 VARIABLES now,
@@ -160,12 +162,20 @@ Refuse(r, why, bodyRead) ==
     /\ obs' = RespObs(r, "ERROR", why, Effects, bodyRead)
     /\ UNCHANGED <<now, stored, registered, files, running, sBucket, fBucket, accS, accF>>
 
+\* a STORE refused before the rate check: the budget is not touched (deviation: the newest entry of the bucket is handed back,
+\* although this request never took one -- an earlier ACCEPTED store is forgotten)
+StoreRefuse(r, why, bodyRead) ==
+    /\ obs' = RespObs(r, "ERROR", why, Effects, bodyRead)
+    /\ sBucket' = IF DevRefundOnRefusal /\ why # "too-large" /\ sBucket[KeyOf(r)] # <<>>
+                    THEN [sBucket EXCEPT ![KeyOf(r)] = SubSeq(@, 1, Len(@) - 1)] ELSE sBucket
+    /\ UNCHANGED <<now, stored, registered, files, running, fBucket, accS, accF>>
+
 \* ---- STORE: parse_request (cap) ; token ; TTL ; rate ; PoW ; store
 Store(r) ==
-    IF r.len = "over" THEN Refuse(r, "too-large", FALSE)                     \* refused while reading the headers
-    ELSE IF Unauth(r) THEN Refuse(r, "unauth", TRUE)
-    ELSE IF r.ttl = "garbage" THEN Refuse(r, "ttl-invalid", TRUE)
-    ELSE IF r.ttl \in {"below", "above"} THEN Refuse(r, "ttl-range", TRUE)
+    IF r.len = "over" THEN StoreRefuse(r, "too-large", FALSE)                \* refused while reading the headers
+    ELSE IF Unauth(r) THEN StoreRefuse(r, "unauth", TRUE)
+    ELSE IF r.ttl = "garbage" THEN StoreRefuse(r, "ttl-invalid", TRUE)
+    ELSE IF r.ttl \in {"below", "above"} THEN StoreRefuse(r, "ttl-range", TRUE)
     ELSE LET key == KeyOf(r) fresh == Fresh(sBucket[key]) IN
          IF Len(fresh) >= Limit
            THEN /\ obs' = RespObs(r, "ERROR", "rate", Effects, TRUE)
@@ -286,6 +296,9 @@ AdmitActs == {Req("STORE", GoodTok, "mid", "none", A0, ch, len, ttl, pow) :
                ttl \in {"absent", "below", "min", "mid", "max", "above", "garbage"}, pow \in {"valid", "invalid", "missing"}}
 RateActs == {Req(cmd, IF hdr = "none" THEN "none" ELSE "wrong", "mid", hdr, a, ch, "under", "mid", GoodPow) :
                cmd \in RateCmds, hdr \in Hdrs, a \in Addrs, ch \in Chunks}
+            \cup (IF RateBad THEN {Req("STORE", "none", "mid", "none", a, ch, len, ttl, pow) :
+                                     a \in Addrs, ch \in Chunks, len \in {"under", "over"}, ttl \in {"mid", "above", "garbage"},
+                                     pow \in {GoodPow} \cup (IF PowOn THEN {"invalid"} ELSE {})} ELSE {})
 ReqActs == (IF "auth" \in Families THEN AuthActs ELSE {}) \cup (IF "admit" \in Families THEN AdmitActs ELSE {})
            \cup (IF "rate" \in Families THEN RateActs ELSE {})
 WarnSeqs == UNION {[1..n -> 1..Len(ValueTable)] : n \in 0..2}
